@@ -637,7 +637,8 @@ class Interp:
         def fallback(e):
             if out_param is None:
                 raise Unsupported("function may fall off its end")
-            return e[out_param]
+            # gufunc-style: the output buffer is the LAST parameter, whatever it is called
+            return e[params[-1]]
         return self.result_value(r, fallback)
 
 
